@@ -1464,6 +1464,71 @@ fn gen_embedded_sigs(n: usize) -> Vec<u8> {
     b.extend_from_slice(&[8; 64]);
     pkt(2, &b)
 }
+/// v6 signature whose hashed area holds an Embedded Signature subpacket that holds a signature that holds ...
+/// (n levels); `siblings`: every level additionally carries a complete leaf Embedded Signature subpacket in front
+/// of and behind the one that continues the nesting
+fn gen_nested_embedded(n: usize, siblings: bool) -> Vec<u8> {
+    // built in linear time: all level sizes first, then prefixes outside-in, the leaf, suffixes inside-out
+    let tail = {
+        let mut b = be32(0).to_vec(); // unhashed area
+        b.extend_from_slice(&[0, 0, 16]);
+        b.extend_from_slice(&[9; 16]);
+        b.extend_from_slice(&[8; 64]);
+        b
+    };
+    let leaf_sig = {
+        let mut b = sig6_prefix(27, &creation_subpkt(), None);
+        b.extend_from_slice(&tail);
+        b
+    };
+    let sp_hdr = |inner_len: usize| {
+        let l = inner_len as u32 + 1;
+        let mut sp = subpkt_len(if l < 192 { 1 } else if l < 16320 { 2 } else { 0 }, l);
+        sp.push(32);
+        sp
+    };
+    let leaf_sp = {
+        let mut sp = sp_hdr(leaf_sig.len());
+        sp.extend_from_slice(&leaf_sig);
+        sp
+    };
+    let sib = if siblings { leaf_sp.len() } else { 0 };
+    // sizes[k] = size of the signature body at nesting level k (0 = innermost)
+    let mut sizes = Vec::with_capacity(n + 1);
+    sizes.push(leaf_sig.len());
+    for k in 0..n {
+        let inner = sizes[k];
+        let area = sib + sp_hdr(inner).len() + inner + sib;
+        sizes.push(4 + 4 + area + tail.len());
+    }
+    let total = sizes[n];
+    let mut out = hdr_new5(2, total as u32);
+    out.reserve(total);
+    for k in (0..n).rev() {
+        let inner = sizes[k];
+        let area = sib + sp_hdr(inner).len() + inner + sib;
+        out.extend_from_slice(&[6, 0x00, 27, 8]);
+        out.extend_from_slice(&be32(area as u32));
+        if siblings {
+            out.extend_from_slice(&leaf_sp);
+        }
+        out.extend(sp_hdr(inner));
+    }
+    out.extend_from_slice(&leaf_sig);
+    for _ in 0..n {
+        if siblings {
+            out.extend_from_slice(&leaf_sp);
+        }
+        out.extend_from_slice(&tail);
+    }
+    out
+}
+fn gen_nested_embedded_chain(n: usize) -> Vec<u8> {
+    gen_nested_embedded(n, false)
+}
+fn gen_nested_embedded_siblings(n: usize) -> Vec<u8> {
+    gen_nested_embedded(n, true)
+}
 fn gen_user_attrs(n: usize) -> Vec<u8> {
     let mut v = pkt(6, &v4_pubkey_ed25519_legacy());
     v.extend(pkt(13, b"a"));
@@ -1632,6 +1697,9 @@ fn families() -> Vec<Family> {
         f("one-pass-signature-packets-unterminated", Runner::MessageDeep, 32_000, gen_ops_unterminated, 16, PE),
         iso(f("nested-compression-stored", Runner::MessageDeep, 2_000, gen_nested_stored, 16, PL)),
         iso(f("nested-compression-zlib", Runner::MessageDeep, 1_000, gen_nested_zlib, 16, PL)),
+        // every one of the (at most 16 admitted) nesting levels copies its subpacket area once: factor 64
+        iso(f("nested-embedded-signatures", Runner::Packets, 64, gen_nested_embedded_chain, 64, PE)),
+        iso(f("nested-embedded-signatures-leaf-siblings", Runner::Packets, 64, gen_nested_embedded_siblings, 64, PE)),
         f("signature-subpackets-v6", Runner::DetachedSig, 80_000, gen_subpackets_v6, 16, PE),
         f("signature-subpackets-unknown-v6", Runner::Packets, 80_000, gen_subpackets_unknown_v6, 16, PE),
         f("signature-embedded-signatures", Runner::Packets, 8_000, gen_embedded_sigs, 16, PE),
@@ -2052,6 +2120,26 @@ fn build_stream<W: Write>(cfg: &StreamCfg, total: u64, signer: &SignedSecretKey,
 
 /// Reads a message the streaming way; returns payload octets released or the error text.
 fn read_stream(cfg: &StreamCfg, data: &[u8], mode: Seipdv1ReadMode, scratch: &mut [u8]) -> Result<u64, String> {
+    read_stream_v(cfg, data, mode, scratch, 0)
+}
+
+/// The ways an application can arrive at the same decryption options (the read mode / size limit must
+/// hold whatever else is enabled, in whatever order)
+const OPTS_VARIANTS: [&str; 6] = ["mode", "mode+gnupg", "mode+legacy", "gnupg+legacy+mode", "mode+legacy+gnupg", "legacy+mode+gnupg"];
+
+fn mk_opts(mode: Seipdv1ReadMode, variant: usize) -> DecryptionOptions {
+    let n = DecryptionOptions::new();
+    match variant % OPTS_VARIANTS.len() {
+        0 => n.set_seipdv1_read_mode(mode),
+        1 => n.set_seipdv1_read_mode(mode).enable_gnupg_aead(),
+        2 => n.set_seipdv1_read_mode(mode).enable_legacy(),
+        3 => n.enable_gnupg_aead().enable_legacy().set_seipdv1_read_mode(mode),
+        4 => n.set_seipdv1_read_mode(mode).enable_legacy().enable_gnupg_aead(),
+        _ => n.enable_legacy().set_seipdv1_read_mode(mode).enable_gnupg_aead(),
+    }
+}
+
+fn read_stream_v(cfg: &StreamCfg, data: &[u8], mode: Seipdv1ReadMode, scratch: &mut [u8], opts_variant: usize) -> Result<u64, String> {
     let mut m = Message::from_bytes(BufReader::new(data)).map_err(|e| format!("parse: {e}"))?;
     if m.is_encrypted() {
         let key = match cfg.enc {
@@ -2060,7 +2148,7 @@ fn read_stream(cfg: &StreamCfg, data: &[u8], mode: Seipdv1ReadMode, scratch: &mu
         };
         let ring = TheRing {
             session_keys: vec![key],
-            decrypt_options: DecryptionOptions::new().set_seipdv1_read_mode(mode),
+            decrypt_options: mk_opts(mode, opts_variant),
             ..Default::default()
         };
         m = m.decrypt_the_ring(ring, true).map_err(|e| format!("decrypt: {e}"))?.0;
@@ -2163,7 +2251,7 @@ fn w3(ctx: &mut Ctx) {
             describe_case(&format!("W3 reader {}", cfg.name()));
             let mut peaks: Vec<(u64, u64, u64)> = vec![];
             let mut failed = false;
-            for &n in &sizes {
+            for (ni, &n) in sizes.iter().enumerate() {
                 if slow_cfg(cfg) && n > 64 * MIB {
                     continue;
                 }
@@ -2174,7 +2262,9 @@ fn w3(ctx: &mut Ctx) {
                     failed = true;
                     break;
                 }
-                let (r, st) = measure_alloc(|| crate::core::guard(|| read_stream(cfg, &data, Seipdv1ReadMode::Streaming, &mut scratch)));
+                // the options are built in a different way for every size (the streaming mode must survive all of them)
+                ctx.seen("W3.reader.options", OPTS_VARIANTS[ni % OPTS_VARIANTS.len()]);
+                let (r, st) = measure_alloc(|| crate::core::guard(|| read_stream_v(cfg, &data, Seipdv1ReadMode::Streaming, &mut scratch, ni)));
                 ctx.eval();
                 dbg_line!("W3 read  {:40} n={:10} msg={:10} peak={:10} total={} count={} -> {:?}", cfg.name(), n, data.len(), st.peak, st.total, st.count, r.as_ref().ok());
                 match r {
@@ -2271,6 +2361,28 @@ fn w3(ctx: &mut Ctx) {
                 }
                 ctx.tally(if r.is_ok() { "W3.checkfirst.accepted" } else { "W3.checkfirst.refused" }, 1);
                 ctx.cover(&("W3c", cfg.name(), l, label));
+                // the limit holds however the options were put together
+                if clen > l + slack {
+                    for v in 1..OPTS_VARIANTS.len() {
+                        let (r, st) = measure_alloc(|| crate::core::guard(|| read_stream_v(&cfg, &data, mode, &mut scratch, v)));
+                        ctx.eval();
+                        ctx.seen("W3.checkfirst.options", OPTS_VARIANTS[v]);
+                        let Ok(r) = r else { continue };
+                        if r.is_ok() {
+                            ctx.violation(
+                                format!("C19/W3/checkfirst-limit-not-enforced/options-{}", OPTS_VARIANTS[v]),
+                                format!("SEIPDv1 CheckFirst with max_message_size {l} (options built as {}) decrypted a message of {clen} ciphertext octets", OPTS_VARIANTS[v]),
+                                json!({"config": cfg.name(), "limit": l, "ciphertext_bytes": clen, "options": OPTS_VARIANTS[v]}),
+                            );
+                        } else if st.peak > bound {
+                            ctx.violation(
+                                format!("C19/W3/checkfirst-peak-exceeds-2L/options-{}", OPTS_VARIANTS[v]),
+                                format!("peak allocation {} with max_message_size {l} (options built as {}), ciphertext {clen} octets", st.peak, OPTS_VARIANTS[v]),
+                                json!({"config": cfg.name(), "limit": l, "ciphertext_bytes": clen, "options": OPTS_VARIANTS[v]}),
+                            );
+                        }
+                    }
+                }
             }
             ctx.seen("W3.checkfirst", format!("{}@{}", cfg.name(), l));
         }
